@@ -66,6 +66,7 @@ func runC18(ctx *core.Ctx) {
 	ctx.Rule("RI5", "lookahead discipline: the byte on which the identifier and keyword readers decide 'the token ends here' is obtained with peekByte, never with a consuming read", 3)
 	ctx.Rule("RI6", "raw reads inside tokens: every peekByte/nextByte call inside a loop of readKeyword, readIdent or readString passes skipSpace=false", 4)
 	ctx.Rule("RI7", "identifier byte class: the predicate the identifier reader uses is a pure combination of comparisons of its byte with constants, and the set it accepts - computed exactly over the 256 byte values by splitting the value set at every comparison - is [A-Za-z0-9_] plus every byte >= 0x80", 1)
+	ctx.Rule("RI9", "import names: readImport consumes a single byte as the whole name only on paths where that byte was found equal to '.'; every other name goes through the identifier reader", 1)
 	ctx.Rule("RI8", "escapes in interpreted strings: readString contains a consuming read that is executed exactly when the byte just read is a backslash", 1)
 	ctx.Rule("RI4", "loop guards: every loop in the functions reachable from ReadImports/ReadComments has an exit whose condition depends on the reader's err/eof state (directly or through peekByte/nextByte, which return 0 once an error is set); the explicit panic is reachable only behind the error-iteration counter", 5)
 
@@ -347,6 +348,29 @@ func runC18(ctx *core.Ctx) {
 			}
 			if n == 0 {
 				ctx.Bad("RI6", "imports#raw", rstr.Pos(), "no in-token reads found")
+			}
+			// RI9: in an import clause a single byte is taken as the name only when it is the dot
+			if rimp := p.Func("imports", "(*importReader).readImport"); rimp != nil {
+				ig := graph(p, rimp)
+				n := 0
+				isPeeked := func(v ssa.Value) bool {
+					c, ok := v.(*ssa.Call)
+					return ok && c.Call.StaticCallee() == peek
+				}
+				ig.Instrs(func(i ssa.Instruction) {
+					st, ok := i.(*ssa.Store)
+					if !ok || !isFieldAddrOf("peek")(st.Addr) {
+						return
+					}
+					n++
+					dot := onAllPaths(ig, st, nil, func(f ssax.Fact) bool {
+						return cmpFact([]ssax.Fact{f}, token.EQL, isPeeked, isConstIntV('.'))
+					})
+					ctx.Check(dot, "RI9", "imports.readImport#one-byte-name"+itoa(n), st.Pos(), "a one-byte import name is consumed only for '.' (an identifier such as _x or _1 must be read as an identifier; taking its first byte alone derails the clause)")
+				})
+				if n == 0 {
+					ctx.Note("RI9", "imports.readImport#one-byte-name", rimp.Pos(), "readImport consumes no single byte itself")
+				}
 			}
 			// RI8: a backslash inside an interpreted string takes the next byte with it
 			{
